@@ -50,7 +50,10 @@ PARTIAL = [
     "its round trip is checked by the float-mode oracle only, at the printed precision",
     "evaluation (now END-TO-END theorems C14.*_same_point(s): export -> import -> evaluate_single through the library's span search, "
     "rational or not, curves / surfaces / volumes, smesh / vmesh / dict form, containers elementwise, every parameter of the closed domain): "
-    "hypotheses beyond the readers' guard are a non-empty last span of the domain per direction and stored points of one length; "
+    "hypotheses beyond the readers' guard are a non-empty last span of the domain per direction and stored points of one length PER ELEMENT "
+    "(a container may mix BSpline and NURBS shapes; in-file mixed example); json_export_import itself (the identity import(export x) = x in rational form) is TOTAL in the model: "
+    "importShapes has no guard and Shapes.Ok only asks for non-zero weights, so it also covers records the real importer would refuse (degree 0, constant knot vector); "
+    "it is only meant for / only fed with records exported from valid objects, the *_same_points versions carry well-formedness (EvalOk); "
     "not covered: derivatives of the reimported shape, evaluation of freeform trims, the txt / csv formats (they carry control points only)",
     "2-D file helpers of compatibility: the repaired flip / weight / unweight helpers and the pinned flip's IndexError are now theorems for "
     "every rectangular file (C14.flip2d_repaired_all_sizes, weight2d_repaired_all_sizes, flip2d_pinned_refutes_all_nonsquare); the broken "
